@@ -241,8 +241,9 @@ Pts(op, S) == {Call(op, p) : p \in S}
 ShapeAlphabet ==
   Pts("Shape:Line", {<<0,0>>, <<2,0>>, <<-1,3>>})
   \cup Pts("Shape:Rectangle", {<<w, h>> : w \in {0, 4, -2}, h \in {0, 2, 4}})
-  \cup Pts("Shape:BeveledRectangle", {<<w, h, r>> : w \in {0, 4, 8}, h \in {4, 6}, r \in {0, 1, 2, -1, 5}})
-  \cup Pts("Shape:RoundedRectangle", {<<w, h, r>> : w \in {0, 4, 8}, h \in {4, 6}, r \in {0, 1, 2, -1, 5}})
+  \* signed radii on both sides of the clamp min(w,h)/2: "a negative radius will cast the corners inwards", still clamped
+  \cup Pts("Shape:BeveledRectangle", {<<w, h, r>> : w \in {0, 4, 8}, h \in {4, 6}, r \in {0, 1, 2, -1, 5, -3, -5, -8}})
+  \cup Pts("Shape:RoundedRectangle", {<<w, h, r>> : w \in {0, 4, 8}, h \in {4, 6, 2}, r \in {0, 1, 2, -1, 5, -2, -3, -5, -8}})
   \cup Pts("Shape:Circle", {<<0>>, <<3>>, <<-2>>}) \cup Pts("Shape:Ellipse", {<<3,1>>, <<1,3>>, <<2,2>>, <<0,2>>, <<-1,2>>})
   \cup Pts("Shape:Grid", {<<14,14,2,2,2>>, <<10,6,3,1,1>>, <<4,4,1,1,1>>, <<4,4,0,1,1>>, <<2,2,1,1,1>>, <<9,9,2,2,1>>, <<14,14,2,2,-1>>})
   \cup Pts("Shape:Arc", {<<2,0,90>>, <<2,0,360>>, <<0,0,90>>, <<1,90,-630>>})
